@@ -46,6 +46,7 @@ const (
 	aliasNone = iota
 	aliasDstA
 	aliasDstB
+	aliasArena // and aliasArena+1, +2: one allocation (see oneArena)
 )
 
 const guard = 24
@@ -107,11 +108,90 @@ func fillClass(p []byte, seed uint64, class uint64) {
 	}
 }
 
+// oneArena: the three slices are disjoint parts of ONE allocation (in a drawn
+// order, separated by guard bytes), or dst is exactly a / exactly b with the
+// third slice in the same allocation. Sharing a backing array is not aliasing:
+// the result must be what it is for separate allocations.
+func oneArena(im impl, la, lb, offD, offA, offB, alias, extraDst int, seed uint64) string {
+	n := min(la, lb)
+	if im.direct && n == 0 {
+		return ""
+	}
+	ld := n + extraDst
+	mode := alias - aliasArena // 0: three disjoint parts; 1: dst is a, b elsewhere in the arena; 2: dst is b, a elsewhere
+	type part struct{ off, length int }
+	var pa, pb, pd part
+	order := int(seed>>40) % 6
+	sizes := map[byte]int{'a': offA + la, 'b': offB + lb, 'd': offD + ld}
+	seq := [6]string{"abd", "adb", "bad", "bda", "dab", "dba"}[order]
+	pos := guard
+	for _, k := range []byte(seq) {
+		if k == 'd' && mode != 0 {
+			continue
+		}
+		switch k {
+		case 'a':
+			pa = part{pos + offA, la}
+		case 'b':
+			pb = part{pos + offB, lb}
+		case 'd':
+			pd = part{pos + offD, ld}
+		}
+		pos += sizes[k] + guard
+	}
+	arena := make([]byte, pos+guard)
+	fillClass(arena, seed, seed>>61&7)
+	a := arena[pa.off : pa.off+pa.length] // two-index slices: the capacity runs to the end of the allocation
+	b := arena[pb.off : pb.off+pb.length]
+	var dst []byte
+	dstOff := 0
+	switch mode {
+	case 1:
+		dst, dstOff = a, pa.off
+	case 2:
+		dst, dstOff = b, pb.off
+	default:
+		dst, dstOff = arena[pd.off:pd.off+pd.length], pd.off
+	}
+	before := append([]byte(nil), arena...)
+	var got int
+	var pan any
+	func() {
+		defer func() { pan = recover() }()
+		got = im.f(dst, a, b)
+	}()
+	desc := fmt.Sprintf("impl=%s len(a)=%d len(b)=%d len(dst)=%d, one allocation of %d bytes: a at %d, b at %d, dst at %d (mode %d) seed=%d",
+		im.name, la, lb, len(dst), len(arena), pa.off, pb.off, dstOff, mode, seed)
+	if pan != nil {
+		return fmt.Sprintf("panic %v (%s)", pan, desc)
+	}
+	if got != n {
+		return fmt.Sprintf("returned %d, want min(len(a),len(b))=%d (%s)", got, n, desc)
+	}
+	for i := range arena {
+		want := before[i]
+		if i >= dstOff && i < dstOff+n {
+			want = before[pa.off+i-dstOff] ^ before[pb.off+i-dstOff]
+		}
+		if arena[i] != want {
+			what := "a byte outside the result was modified"
+			if i >= dstOff && i < dstOff+n {
+				what = "wrong result byte"
+			}
+			return fmt.Sprintf("%s: arena[%d] (dst index %d) = %#x, want %#x (%s)", what, i, i-dstOff, arena[i], want, desc)
+		}
+	}
+	return ""
+}
+
 // one runs one case; returns "" or a failure description.
 func one(im impl, la, lb, offD, offA, offB, alias, extraDst int, seed uint64) string {
 	n := min(la, lb)
 	if im.direct && n == 0 {
 		return ""
+	}
+	if alias >= aliasArena {
+		return oneArena(im, la, lb, offD, offA, offB, alias, extraDst, seed)
 	}
 	// backing arrays with guard bytes on both sides
 	bufA := make([]byte, guard+offA+la+guard)
@@ -246,7 +326,7 @@ func TestC20Sweep(t *testing.T) {
 	t.Logf("swept %d cases (N=%d, %d implementations)", total, N, len(ims))
 }
 
-const ruleRapid = "rapid-drawn cases: lengths 0..5000 (biased to multiples of 8 +-1 and to 0..64), offsets 0..15, contents by seed (per buffer one of: pseudo-random, all zero, all 0xFF, random with runs of zero bytes, a three-letter alphabet, runs of 0xFF in zeroes), aliasing {none, dst==a, dst==b}, len(dst) in {n, n+1, n+17, n+random}; same oracle and implementations; non-trivial as in the sweep; distinct by hash of the parameters"
+const ruleRapid = "rapid-drawn cases: lengths 0..5000 (biased to multiples of 8 +-1 and to 0..64), offsets 0..15, contents by seed (per buffer one of: pseudo-random, all zero, all 0xFF, random with runs of zero bytes, a three-letter alphabet, runs of 0xFF in zeroes), aliasing {none, dst==a, dst==b, and the same three with all slices cut from one allocation}, len(dst) in {n, n+1, n+17, n+random}; same oracle and implementations; non-trivial as in the sweep; distinct by hash of the parameters"
 
 func TestC20Rapid(t *testing.T) {
 	r := ev.New("C20", "rapid", ruleRapid)
@@ -269,7 +349,7 @@ func TestC20Rapid(t *testing.T) {
 		offD := rapid.IntRange(0, 15).Draw(t, "offD")
 		offA := rapid.IntRange(0, 15).Draw(t, "offA")
 		offB := rapid.IntRange(0, 15).Draw(t, "offB")
-		alias := rapid.IntRange(0, 2).Draw(t, "alias")
+		alias := rapid.IntRange(0, 5).Draw(t, "alias") // 3..5: the slices share one allocation
 		extra := rapid.SampledFrom([]int{0, 0, 1, 17, 100}).Draw(t, "extra")
 		seed := rapid.Uint64().Draw(t, "seed")
 		c.Op("%s la=%d lb=%d off=%d/%d/%d alias=%d extra=%d seed=%d", im.name, la, lb, offD, offA, offB, alias, extra, seed)
@@ -282,6 +362,9 @@ func TestC20Rapid(t *testing.T) {
 			offD = offA
 		} else if alias == aliasDstB {
 			offD = offB
+		}
+		if alias > aliasArena {
+			extra = 0
 		}
 		if s := one(im, la, lb, offD, offA, offB, alias, extra, seed); s != "" {
 			t.Fatalf("C20: %s", s)
